@@ -460,14 +460,23 @@ class RunFailed(Exception):
         self.stderr = stderr
 
 
-def run_phase(ctx, wd, sc, opt, tag, chromosomes="opt"):
+class TimedOut(Exception):
+    pass
+
+
+RUN_TIMEOUT = float(os.environ.get("WHVERIF_C20_RUN_TIMEOUT", "600"))   # per CLI run, seconds
+
+
+def run_phase(ctx, wd, sc, opt, tag, chromosomes="opt", timeout=RUN_TIMEOUT):
     trace = os.path.join(wd, f"trace.{tag}.jsonl")
     for p in (trace, os.path.join(wd, f"reads.{tag}.tsv"), os.path.join(wd, f"gts.{tag}.tsv"),
               os.path.join(wd, f"recs.{tag}.txt")):
         if os.path.exists(p):
             os.unlink(p)
     args = phase_args(wd, sc, opt, tag, chromosomes)
-    rc, out, err = run_cli(ctx, args, cwd=wd, env_extra={"WHATSHAP_VERIF_TRACE": trace})
+    rc, out, err = run_cli(ctx, args, cwd=wd, env_extra={"WHATSHAP_VERIF_TRACE": trace}, timeout=timeout)
+    if rc == 124 and err == "TIMEOUT":
+        raise TimedOut(f"whatshap phase did not finish within {timeout} s\nargs: {args}")
     insts = [json.loads(l) for l in open(trace)] if os.path.exists(trace) else []
     if rc != 0:
         raise RunFailed(f"whatshap phase exited with {rc}: {err[-1500:]}\nargs: {args}", insts, err)
